@@ -59,12 +59,15 @@ def main():
     meta["confirmed"] = confirmed
     # 2. run my checks against it
     results = {}
-    if sh("git -C /repo status --porcelain").stdout.strip():
+    # the tree the checks run against: /repo itself, or (VERIF_EVAL_REPO) a scratch worktree of /repo that the
+    # snapshot of /verif given by VERIF_SNAP has been pointed at, so that /repo stays untouched meanwhile
+    repo = os.environ.get("VERIF_EVAL_REPO", "/repo")
+    if sh(f"git -C {repo} status --porcelain").stdout.strip():
         print("REPO NOT CLEAN, refusing")
         return 4
     tmp_patch = "/tmp/seedchk/current.diff"
     open(tmp_patch, "w").write(clean_patch)
-    r = sh(f"git -C /repo apply {tmp_patch}")
+    r = sh(f"git -C {repo} apply {tmp_patch}")
     assert r.returncode == 0, r.stderr
     try:
         for p in props:
@@ -78,7 +81,7 @@ def main():
                           "machinery": re.findall(r"MACHINERY ERROR.*", r.stdout)[:3]}
             print(f"check {p}: exit={r.returncode} sigs={sigs[:5]}")
     finally:
-        sh("git -C /repo checkout -- . && git -C /repo status --porcelain")
+        sh(f"git -C {repo} checkout -- . && git -C {repo} status --porcelain")
         snap = os.environ.get("VERIF_SNAP", "/verif")
         sh(f"rm -rf {snap}/replays/*")
         # evidence files were rewritten by runs on a mutated tree: restore the committed ones
